@@ -1,6 +1,8 @@
 """C15: the declarative parts of the charge-handling models -> Gallina (fail closed).
 
   inter_pixel_capacitance.py  ipc_kernel      -> src_ipc_guard, src_ipc_weights (guards + the 3x3 literal)
+  inter_pixel_capacitance.py  compute_ipc_convolution -> src_ipc_conv_whole_frame, src_ipc_conv_mean_fill (one
+                                                 convolve_fft of the whole frame with that kernel, boundary fill = mean)
   collection.py               simple_collection -> src_collect (the single statement `pixel op= charge`)
   full_well.py                apply_simple_full_well_capacity -> src_full_well (`array[array > fwc] = fwc`)
   photoelectrons.py           apply_qe        -> src_qe_off (the expression of the non-sampling branch)
@@ -153,6 +155,75 @@ def tr_ipc(repo: Path) -> str:
     fields = "; ".join(f"k{i}{j} := {kernel_rows[i][j]}" for i in range(3) for j in range(3))
     return (f"Definition src_ipc_guard (c d a : Q) : bool := {g}.\n"
             f"Definition src_ipc_weights (c d a : Q) : kernel := {{| {fields} |}}.\n")
+
+
+def tr_ipc_conv(repo: Path) -> str:
+    """compute_ipc_convolution: ONE convolve_fft call over the WHOLE input frame (not in a loop / branch, not on a slice)
+    with the kernel of ipc_kernel(<the three couplings>), boundary='fill', fill_value = np.mean(<input>), whose result is
+    what the function returns."""
+    fn = nfunc(repo, "pyxel/models/charge_collection/inter_pixel_capacitance.py", "compute_ipc_convolution")
+    params = [a.arg for a in fn.args.args]
+    if params[1:] != ["coupling", "diagonal_coupling", "anisotropic_coupling"] or len(params) != 4:
+        fail(fn, "compute_ipc_convolution signature")
+    frame = params[0]
+    body = fn.body
+    bound = {}                                            # local -> expression (single top-level assignments)
+    for st in body:
+        for n in ast.walk(st):
+            if isinstance(n, (ast.For, ast.While, ast.AsyncFor, ast.ListComp, ast.GeneratorExp, ast.SetComp, ast.DictComp)):
+                fail(n, "compute_ipc_convolution: loop / comprehension (the frame must be convolved in one piece)")
+            if isinstance(n, ast.Name) and not isinstance(n.ctx, ast.Load) and n.id == frame:
+                fail(n, "compute_ipc_convolution rebinds its input")
+            if isinstance(n, (ast.Subscript, ast.Attribute)) and not isinstance(n.ctx, ast.Load):
+                fail(n, "compute_ipc_convolution stores into an object")
+            if isinstance(n, ast.AugAssign):
+                fail(n, "compute_ipc_convolution: augmented assignment")
+        if isinstance(st, ast.Assign) and len(st.targets) == 1 and isinstance(st.targets[0], ast.Name):
+            if st.targets[0].id in bound:
+                fail(st, "compute_ipc_convolution: a local is bound twice")
+            bound[st.targets[0].id] = st.value
+        elif not isinstance(st, ast.Return):
+            fail(st, "statement shape not accepted in compute_ipc_convolution (assignments and the return only)")
+
+    def val(node):
+        seen = set()
+        while isinstance(node, ast.Name) and node.id in bound and node.id not in seen:
+            seen.add(node.id)
+            node = bound[node.id]
+        return node
+
+    if not body or not isinstance(body[-1], ast.Return) or body[-1].value is None:
+        fail(fn, "compute_ipc_convolution must end in `return <convolved frame>`")
+    call = val(body[-1].value)
+    if not (isinstance(call, ast.Call) and ast.unparse(call.func) in ("convolve_fft", "convolve")):
+        fail(body[-1], "compute_ipc_convolution must return the result of convolve_fft")
+    ncalls = sum(1 for st in body for n in ast.walk(st)
+                 if isinstance(n, ast.Call) and ast.unparse(n.func) in ("convolve_fft", "convolve"))
+    if ncalls != 1:
+        fail(fn, "compute_ipc_convolution must convolve once")
+    if any(isinstance(a, ast.Starred) for a in call.args) or any(k.arg is None for k in call.keywords) or len(call.args) > 2:
+        fail(call, "convolve_fft arguments")
+    kw = {**dict(zip(("array", "kernel"), call.args)), **{k.arg: k.value for k in call.keywords}}
+    if set(kw) != {"array", "kernel", "boundary", "fill_value"}:
+        fail(call, "convolve_fft must receive exactly array, kernel, boundary, fill_value")
+    arr = val(kw["array"])
+    if not (isinstance(arr, ast.Name) and arr.id == frame):
+        fail(call, "convolve_fft must receive the whole input frame")
+    kern = val(kw["kernel"])
+    want = {"coupling": "coupling", "diagonal_coupling": "diagonal_coupling", "anisotropic_coupling": "anisotropic_coupling"}
+    if not (isinstance(kern, ast.Call) and ast.unparse(kern.func) == "ipc_kernel" and not kern.args
+            and {k.arg: ast.unparse(k.value) for k in kern.keywords} == want):
+        fail(call, "the kernel must be ipc_kernel(coupling, diagonal_coupling, anisotropic_coupling)")
+    bnd = val(kw["boundary"])
+    fill = val(kw["fill_value"])
+    fill_ok = (isinstance(bnd, ast.Constant) and bnd.value == "fill" and isinstance(fill, ast.Call)
+               and ((ast.unparse(fill.func) in ("np.mean", "numpy.mean") and len(fill.args) == 1 and not fill.keywords
+                     and isinstance(val(fill.args[0]), ast.Name) and val(fill.args[0]).id == frame)
+                    or (isinstance(fill.func, ast.Attribute) and fill.func.attr == "mean" and not fill.args
+                        and not fill.keywords and isinstance(val(fill.func.value), ast.Name)
+                        and val(fill.func.value).id == frame)))
+    return ("Definition src_ipc_conv_whole_frame : bool := true.\n"
+            f"Definition src_ipc_conv_mean_fill : bool := {'true' if fill_ok else 'false'}.\n")
 
 
 def tr_collect(repo: Path) -> str:
@@ -513,7 +584,7 @@ def tr_cdm_guard(repo: Path) -> str:
 
 
 def translate(repo: Path) -> str:
-    return (HEADER + PRE + tr_ipc(repo) + tr_collect(repo) + tr_full_well(repo) + tr_qe(repo) + tr_fw_sources(repo)
+    return (HEADER + PRE + tr_ipc(repo) + tr_ipc_conv(repo) + tr_collect(repo) + tr_full_well(repo) + tr_qe(repo) + tr_fw_sources(repo)
             + tr_qe_sources(repo) + tr_qe_map(repo) + tr_cdm_guard(repo))
 
 
@@ -521,6 +592,8 @@ FALLBACK = (HEADER + PRE +
             "Definition src_ipc_guard (c d a : Q) : bool := (Qltb d c) && (Qltb a c) && (Qle_bool 0 (c + d) && Qle_bool (c + d) (1 # 4)).\n"
             "Definition src_ipc_weights (c d a : Q) : kernel := {| k00 := d; k01 := (c - a); k02 := d; k10 := (c + a); "
             "k11 := (1 - (4 * (c + d))); k12 := (c + a); k20 := d; k21 := (c - a); k22 := d |}.\n"
+            "Definition src_ipc_conv_whole_frame : bool := true.\n"
+            "Definition src_ipc_conv_mean_fill : bool := true.\n"
             "Definition src_collect (pixel charge : Q) : Q := (pixel + charge).\n"
             "Definition src_full_well (c x : Q) : Q := if Qlt_le_dec c x then c else x.\n"
             "Definition src_qe_off (q p : Q) : Q := (p * q).\n"
